@@ -156,7 +156,7 @@ def jobs(tier):
             pairs.append([a, b])
     hists = [[[s], []] for s in singles] + [[[], [s]] for s in singles]
     hists += [[p, []] for p in pairs] + [[[], p] for p in pairs]
-    for a in CROSS[:5]:
+    for a in CROSS:
         for b in INSIDE + CROSS[:3]:
             hists.append([[a], [b]])
             hists.append([[b], [a]])
